@@ -39,7 +39,7 @@
                                 that is the double release); the repaired machine V1 never takes this path
              !stuck             any other step of the op was not enabled  *)
 From Coq Require Import List NArith ZArith Bool Arith String.
-From Snow Require Import Lib.Wire Model.Tokens Model.ProxySession.
+From Snow Require Import Lib.Wire Model.Tokens Model.ProxySession Model.TokensConc.
 Import ListNotations.
 Local Open Scope nat_scope.
 
@@ -133,21 +133,92 @@ Definition op_print (st : state) (npolls : nat) (show : bool) : bytes :=
   | _, _ => bs "-"
   end.
 
+(* ---- op S<n>x<rounds> (conc cases): overlapping callers of the tokens value, Model/TokensConc.v.
+   n goroutines take a slot together; then <rounds> rounds of n holders and n starters (12 short sessions each,
+   c16StressPairs of the driver) released by one barrier; then the n slots are given back together.  Every phase is run
+   to quiescence under a pseudo-random schedule (an LCG picks among the goroutines whose next step is enabled); by
+   C16_quiescent_count_schedule_independent / C16_stress_round_count the outcome does not depend on that choice, so any
+   schedule predicts what the implementation must show at its own quiescent points.  The model runs at most
+   STRESS_ROUNDS_MAX rounds (every round has the same programs).  The op then behaves as the op e (one failing poll) and
+   the answer ends with ~r0d0 like the driver's (first bad round, drift); a tokens value that differs after the stress
+   is printed as ~model-drift, a phase that does not reach quiescence as !stuck. *)
+Definition STRESS_PAIRS : nat := 12.
+Definition STRESS_ROUNDS_MAX : nat := 6.
+Definition lcg (g : N) : N := ((g * 1103515245 + 12345) mod 2147483648)%N.
+Definition ready_idx (t : tokens) (ll : list (list micro)) : list nat :=
+  map fst (filter (fun p => match snd p with m :: _ => micro_ready t m | [] => false end)
+                  (combine (seq 0 (List.length ll)) ll)).
+Fixpoint crun_rand (fuel : nat) (s : cstate) (g : N) : option cstate :=
+  match fuel with
+  | O => Some s
+  | S f =>
+      match ready_idx (ctok s) (todo s) with
+      | [] => Some s
+      | en =>
+          let g' := lcg g in
+          match nth_error en (N.to_nat ((g' / 65536) mod N.of_nat (List.length en))%N) with
+          | Some i => match cstep s i with Some s' => crun_rand f s' g' | None => None end
+          | None => None
+          end
+      end
+  end.
+Definition phase (t : tokens) (ps : list (list tokop)) (g : N) : option tokens :=
+  let s := cinit t ps in
+  match crun_rand (List.length (List.concat (todo s))) s g with
+  | Some s' => if quiescent s' then Some (ctok s') else None
+  | None => None
+  end.
+Fixpoint phases (t : tokens) (ps : list (list tokop)) (r : nat) (g : N) : option tokens :=
+  match r with
+  | O => Some t
+  | S r' => match phase t ps g with Some t' => phases t' ps r' (lcg (g + 7)) | None => None end
+  end.
+Definition stress (t : tokens) (n rounds : nat) : option tokens :=
+  let g := N.of_nat (n * 31 + rounds) in
+  match phase t (repeat [OGet] n) g with
+  | Some t1 =>
+      match phases t1 (round_progs n STRESS_PAIRS) (Nat.min rounds STRESS_ROUNDS_MAX) (lcg g) with
+      | Some t2 => phase t2 (repeat [ORet] n) (lcg (g + 1))
+      | None => None
+      end
+  | None => None
+  end.
+Definition tok_eqb (a b : tokens) : bool :=
+  (cap a =? cap b) && (clients a =? clients b)%Z && (chlen a =? chlen b).
+(* the op really run and what is appended to its answer; None: a phase got stuck / bad op *)
+Definition op_resolve (st : state) (o : bytes) : option (bytes * bytes) :=
+  match o with
+  | 83%N :: d =>
+      match map_opt dec_parse_nat (split_on 120%N d) with
+      | Some [n; rounds] =>
+          match stress (tok st) n rounds with
+          | Some t' => Some ([101%N], if tok_eqb t' (tok st) then bs "~r0d0" else bs "~model-drift")
+          | None => None
+          end
+      | _ => None
+      end
+  | _ => Some (o, [])
+  end.
+
 Fixpoint run_ops (v : version) (st : state) (ops : list bytes) : option (list bytes) :=
   match ops with
   | [] => Some []
-  | o :: ops' =>
+  | o0 :: ops' =>
+      match op_resolve st o0 with
+      | None => Some [bs "!stuck"]
+      | Some (o, suffix) =>
       match op_labels v (gets st) o with
       | Some (ls, show) =>
           match run_skip v st no_flags ls with
           | Some (st', f) =>
               match run_ops v st' ops' with
-              | Some r => Some (mark f (op_print st' (List.length (polls st)) show) :: r)
+              | Some r => Some ((mark f (op_print st' (List.length (polls st)) show) ++ suffix) :: r)
               | None => None
               end
           | None => Some [bs "!stuck"]
           end
       | None => None
+      end
       end
   end.
 
@@ -210,7 +281,7 @@ Fixpoint start_ops (v : version) (st : state) (ops : list bytes) : option (list 
 Definition run (args : list bytes) : bytes :=
   match args with
   | [op; c; o] =>
-      let v := if beq op (bs "seq") then Some V1 else if beq op (bs "seq0") then Some V0 else None in
+      let v := if beq op (bs "seq") || beq op (bs "conc") then Some V1 else if beq op (bs "seq0") then Some V0 else None in
       match v, dec_parse_nat c, list_parse (fun x => Some x) o with
       | Some v, Some cp, Some ops =>
           match run_ops v (init cp) ops with
